@@ -1,21 +1,21 @@
 """C03 - the pipeline is the documented stage composition in the documented order"""
 from ..scen_go import go_chain
-from ..scen_stages import stage_steps, STAGES
+from ..scen_stages import stage_steps, STAGES, summaries
 from ..scen_limiter import limiter, lifecycle
 from ..scen_sorter import sorter
 from ..scen_readinput import read_input
+from ..scen_collect import collectors, unique
+from ..scen_ctx import contexts
 
 
 def run(ctx):
-    go_chain(ctx, want=('go.chain', 'go.capacity'))
-    stage_steps(ctx, want=('contract',))
+    go_chain(ctx, want=('go.chain', 'go.capacity', 'go.complete', 'go.inputs'))
+    stage_steps(ctx, want=('contract', 'break', 'err'))
     for name, (prefix, sname) in STAGES.items():
-        lifecycle(ctx, name, prefix, extra_summaries=_ls())
-    limiter(ctx, {'step', 'lifecycle'})
+        lifecycle(ctx, name, prefix, extra_summaries=summaries(1))
+    limiter(ctx, {'step', 'lifecycle', 'err'})
     sorter(ctx, want_order=True, want_topn=True)
-    read_input(ctx, ['read.only_objects_and_arrays', 'read.one_context_per_value'])
-
-
-def _ls():
-    from ..scen_stages import summaries
-    return summaries(1)
+    collectors(ctx)
+    unique(ctx)
+    contexts(ctx)          # every later stage sees the same input and parents as the first one
+    read_input(ctx, ['read.only_objects_and_arrays', 'read.one_context_per_value', 'read.break_stops_reading'])
